@@ -12,7 +12,10 @@ Next == i <= Len(Cases) /\ i' = i + 1
 Check == i <= Len(Cases) =>
    LET c == Cases[i]
        spec == RunProgram(c)
-   IN IF spec.k = "unknown" THEN PrintT(<<"UNKNOWN", c.id>>)
+   \* a program whose real run did not finish within the harness limit is not evaluated (an endless loop that grows
+   \* its data costs the model minutes): it is outside the comparison, and the check counts such programs
+   IN IF c.obs.k = "timeout" THEN PrintT(<<"UNKNOWN", c.id>>)
+      ELSE IF spec.k = "unknown" THEN PrintT(<<"UNKNOWN", c.id>>)
       ELSE IF Conforms(spec, c.obs) THEN TRUE
       ELSE PrintT(<<"MISMATCH", c.id, ToJson(spec)>>)
 =============================================================================
